@@ -343,6 +343,10 @@ macro_rules! rc {
 }
 rc!(c05_q_range_2x2_from_sheet_corner, 2, 2, -2, -1, 3, 3, 2, 1);
 rc!(c05_q_range_2x2_origin_max, 2, 2, -1, 0, 3, 3, 4294967290, 4294967290);
+// origins whose row indices are smaller than the column indices (and the converse is the default origin (7,3))
+rc!(c05_q_range_2x3_overhang_right_lowrow, 2, 3, 0, 1, 2, 4, 1, 5);
+rc!(c05_q_range_3x2_overhang_bottom_lowcol, 3, 2, 1, 0, 4, 2, 9, 0);
+rc!(c05_q_range_2x2_inside_lowrow, 2, 2, 1, 0, 1, 2, 0, 6);
 rc!(c05_q_range_2x2_same, 2, 2, 0, 0, 2, 2);
 rc!(c05_q_range_2x2_inner, 2, 2, 1, 1, 1, 1);
 rc!(c05_q_range_2x2_superset, 2, 2, -1, -1, 4, 4);
